@@ -361,8 +361,8 @@ def main(tier, seed, replay=None):
     res.assumptions = ['reaction table of the child classes (who acknowledges the control message, who dies of the asynchronous exception, SIGTERM, SIGKILL): Ctrl/Model.v, exercised on real children',
                        'wall-clock duration = sum of the recorded blocking calls + non-blocking steps',
                        'ThreadWorker.terminate(force=True) sends SIGTERM to the whole process and is not exercised']
-    res.trusted.append('hand-written model Ctrl/Model.v; scripted child of harness/props/c04.py')
-    core.prove(res, PROP, [], PROOFS, run_files=['theories/Ctrl/Run.v'])
+    res.trusted.append('Ctrl/Model.v: interpreter of the regenerated instruction lists (Gen/Ctrl.v), hand-written is_alive / persistent wait+close / reaction table of the child classes; scripted child of harness/props/c04.py')
+    core.prove(res, PROP, ['Ctrl'], PROOFS, run_files=['theories/Ctrl/Run.v'])
     sys.path.insert(0, core.REPO)
     terms, keep = [], []
     maxlen = 3 if tier == 'quick' else 4
